@@ -2,3 +2,9 @@
 impl Bv {
     pub open spec fn words(&self) -> Seq<u64> { match self { Bv::Fixed(b) => b.data@, Bv::Dynamic(b) => b.data@ } }
 }
+/// the abstract bit of a Bv is the bit of its active storage words
+pub proof fn lemma_sbit_words(v: &Bv)
+    ensures forall|i: int| #[trigger] v.sbit(i) == bit_at(v.words(), i)
+{
+    match v { Bv::Fixed(b) => { } Bv::Dynamic(b) => { } }
+}
